@@ -125,7 +125,15 @@ func arenaPool(r *rand.Rand, size int) []pkey {
 		cs = cs[:size]
 	}
 	var pool []pkey
+	seen := map[string]bool{}
 	for _, c := range cs {
+		// distinct Go keys must have distinct contents: the Coq term of a key is its bytes
+		for seen[string(a[c.off:c.off+c.n])] {
+			for i := c.off; i < c.off+c.n; i++ {
+				a[i] = byte(1 + r.Intn(255))
+			}
+		}
+		seen[string(a[c.off:c.off+c.n])] = true
 		bs := append([]byte(nil), a[c.off:c.off+c.n]...)
 		k := gkey{arenaBs{a, c.off, c.n}, "KBs " + coqByteList(bs), fmt.Sprintf("arenaBs[%d:%d]%v", c.off, c.off+c.n, bs), true, true, true}
 		keyTable = append(keyTable, "HK ("+k.coq+") "+zu(xxhash.Sum64(bs)))
